@@ -107,11 +107,8 @@ func (f Field) CoveredBy(path string) bool {
 	if f.Path == path { //Model.ID
 		return true
 	}
-	if strings.HasPrefix(f.Path, path+dot) { //Model.
-		return true
-	}
-	xs := strings.Split(path, dot)
-	return strings.HasSuffix(f.Path, dot+xs[len(xs)-1]) //.ID
+	//Model.
+	return strings.HasPrefix(f.Path, path+dot)
 }
 
 func (f Field) MatchingName() string {
